@@ -45,5 +45,5 @@ Definition check_case (c : ccase) : bool :=
   | CFrame m evs r unread =>
       let (r', rest) := read_with_output m EmptyString evs in
       result_eqb r' r && Nat.eqb (length rest) unread
-  | CSeq cs r => list_eqb (pair_eqb result_eqb Nat.eqb) (run_all true new_shell cs) r
+  | CSeq cs r => list_eqb (pair_eqb result_eqb Nat.eqb) (run_all false new_shell cs) r
   end.
